@@ -17,6 +17,8 @@ THEOREM_FILE = "Props/C01.v"
 LEVELS = "K1-decode (DnsIncoming::new on raw datagrams, full decoded message compared)"
 RULE = ("datagrams from five families: uniformly random, mutations/truncations of valid packets, "
         "valid packets, grammar-generated hostile packets (arbitrary counts, RDLENGTH, pointer graphs), "
+        "pointer-graph tables (slots pointing at each other in every direction, entered through a pointer), "
+        "headers whose counts exceed the body (with the largest single allocation measured), "
         "and (thorough) every string over a 6-byte alphabet up to a fixed length after a header; "
         "non-trivial = longer than a header; distinct = distinct datagrams")
 TRUSTED = [
@@ -28,7 +30,9 @@ TRUSTED = [
     "wall-clock time as loop iterations bounded by explicit fuel that is a function of the datagram length; "
     "the 8972-byte receive buffer and truncate(sz) in handle_read are outside this check",
 ]
-PARTIAL = ("'time and memory proportional' is proved as: every loop of the decoder finishes within "
+PARTIAL = ("allocation is not modelled: the harness meters the decoder's allocations and a monitor clause bounds the "
+           "largest single request linearly in the datagram length (search support, not proof). "
+           "'time and memory proportional' is proved as: every loop of the decoder finishes within "
            "fuel = datagram length + 1 per nesting level (names: jumps x label runs), record/question counts "
            "bounded by the datagram length (not by header counts); name length bound is quadratic in the "
            "datagram length (compression can legitimately expand names)")
@@ -101,6 +105,17 @@ def generate(rng, tier):
         cases.append(case(b, "rdata-prefix"))
     for b in merged_label_cases():
         cases.append(case(b, "merged-label"))
+    for b in pointer_graph_fixed():
+        cases.append(case(b, "pointer-graph"))
+    for b in pointer_graph_cases(rng, n // 6):
+        cases.append(case(b, "pointer-graph"))
+    for cnt in (0xFFFF, 0x1000, 300):
+        # header counts far beyond what the body holds
+        for pos in range(4):
+            h = [0, 0x8400, 0, 0, 0, 0]
+            h[2 + pos] = cnt
+            cases.append(case(struct.pack(">HHHHHH", *h), "header-counts"))
+            cases.append(case(struct.pack(">HHHHHH", *h) + b"\x00\x00\x01\x00\x01", "header-counts"))
     for _ in range(n // 6):
         cases.append(case(dnsgen.rand_valid_packet(rng), "valid"))
     for _ in range(n // 3):
@@ -121,6 +136,80 @@ def generate(rng, tier):
                 for t in itertools.product(alpha, repeat=ln):
                     cases.append(case(hdr + bytes(t), "exhaustive-alphabet"))
     return cases
+
+
+def pointer_graph_cases(rng, n):
+    """Pointer graphs: a first record of an unknown type whose RDATA is a table of slots - a
+    pointer, a label followed by a pointer, or the root - pointing at each other in every
+    direction (chains, self loops, cycles below / above the entry point), and a second record
+    whose owner name enters the table through a pointer (optionally after a label). The decoder
+    must reject every cycle and terminate; the model says which graphs are names."""
+    out = []
+    for _ in range(n):
+        k = rng.randrange(1, 7)
+        kinds = [rng.choice(["p", "p", "lp", "r", "llp"]) for _ in range(k)]
+        sizes = {"p": 2, "lp": 4, "r": 1, "llp": 7}
+        base = 12 + 1 + 10          # header, root owner name, type/class/ttl/rdlength
+        offs = []
+        o = base
+        for kd in kinds:
+            offs.append(o)
+            o += sizes[kd]
+        rd = b""
+        for i, kd in enumerate(kinds):
+            tgt = rng.choice(offs + [offs[i]] + ([offs[i - 1]] if i else []) + [12, rng.randrange(0, o + 8)])
+            ptr = bytes([0xC0 | (tgt >> 8), tgt & 0xFF])
+            rd += {"p": ptr, "lp": b"\x01a" + ptr, "r": b"\x00", "llp": b"\x01b\x02cd" + ptr}[kd]
+        rec1 = b"\x00" + struct.pack(">HHIH", rng.choice([99, 10, 255]), 1, 10, len(rd)) + rd
+        entry = rng.choice(offs)
+        eptr = bytes([0xC0 | (entry >> 8), entry & 0xFF])
+        name2 = rng.choice([b"", b"\x01x", b"\x03www"]) + eptr
+        rec2 = name2 + struct.pack(">HHIH", 1, 1, 10, 4) + b"\x01\x02\x03\x04"
+        out.append(HEADER_RESP_2AN + rec1 + rec2)
+    return out
+
+
+def pointer_graph_fixed():
+    """The shapes a pointer limit that is not moved along lets through: one legal backward hop,
+    then a cycle lying entirely below the first target."""
+    out = []
+    base = 23
+    for cyc in ([b"\xc0\x17"],                                  # 23 -> 23
+                [b"\xc0\x19", b"\xc0\x17"],                    # 23 -> 25 -> 23
+                [b"\x01a\xc0\x17"],                             # label, back to its own start
+                [b"\xc0\x17", b"\x01a\xc0\x17"]):
+        rd = b"".join(cyc) + b"\xc0\x17"                          # last slot: -> 23
+        last = base + len(rd) - 2
+        rec1 = b"\x00" + struct.pack(">HHIH", 99, 1, 10, len(rd)) + rd
+        for pre in (b"", b"\x01x"):
+            name2 = pre + bytes([0xC0, last])
+            out.append(HEADER_RESP_2AN + rec1 + name2 + struct.pack(">HHIH", 1, 1, 10, 4) + b"\x01\x02\x03\x04")
+    return out
+
+
+ALLOC_RE = None
+
+
+def project(line, raw):
+    """The implementation's result without the allocation meter's numbers (judged by py_monitor)."""
+    i = raw.find(" ~alloc ")
+    return raw[:i] if i >= 0 else raw
+
+
+def py_monitor(line, raw, obs):
+    """'Memory proportional to the datagram size', observed: the largest single allocation made
+    while decoding (and while the facade copies the result) stays within a linear bound of the
+    datagram length. Measured on the unchanged tree: at most 19 x (length + 64) bytes (the
+    facade's Vec of decoded records); the bound below leaves a factor of 13."""
+    import re
+    m = re.search(r" ~alloc max=(\d+) sum=(\d+)", raw)
+    if not m or not line.startswith("dec "):
+        return None
+    ln = 0 if line[4:] == "-" else len(line[4:]) // 2
+    mx = int(m.group(1))
+    if mx > 256 * ln + 8192:
+        return "FAIL alloc: a single allocation of %d bytes while decoding a %d-byte datagram" % (mx, ln)
+    return None
 
 
 def nontrivial(line, result):
